@@ -310,7 +310,13 @@ func (x *Exec) iteVal(c *Term, a, b Val) Val {
 	case IfaceVal:
 		bv := b.(IfaceVal)
 		r := IfaceVal{Tag: o.Ite(c, av.Tag, bv.Tag), Pay: map[int]Val{}}
-		for k, v := range av.Pay {
+		payIDs := make([]int, 0, len(av.Pay))
+		for k := range av.Pay {
+			payIDs = append(payIDs, k)
+		}
+		sort.Ints(payIDs) // fixed order: deterministic scripts
+		for _, k := range payIDs {
+			v := av.Pay[k]
 			if w, ok := bv.Pay[k]; ok {
 				r.Pay[k] = x.iteVal(c, v, w)
 			} else {
@@ -374,6 +380,15 @@ func orFalse(o *Ops, t *Term) *Term {
 		return o.False()
 	}
 	return t
+}
+
+func sortedTermKeys(m map[string]*Term) []string {
+	ks := make([]string, 0, len(m))
+	for k := range m {
+		ks = append(ks, k)
+	}
+	sort.Strings(ks)
+	return ks
 }
 
 func unionKeys(a, b map[string]*Term) []string {
